@@ -158,7 +158,7 @@ Definition rules_ok (cfg : srvcfg) (c : conn) (t : msg) (sc : script) : bool :=
   | Twrite_ fid _ data =>
     match fget (c_fids c) fid with
     | Some fr =>
-      if fid_isauth fr then s_auth cfg
+      if fid_isauth fr then count_ok c (len data) && s_auth cfg
       else f_opened fr && negb (fid_isdir fr) && open_for_writing (f_omode fr)
            && count_ok c (len data)
     | None => false end
